@@ -380,6 +380,10 @@ def _type_check_comparison_operator(expression, source_file_name, errors):
     else:
         acceptable_types = ("integer", "enumeration")
         acceptable_types_for_humans = "an integer or enum"
+    # A comparison is a boolean even if its arguments are ill-typed; annotating
+    # it up front keeps enclosing expressions (including synthesized ones)
+    # checkable after an error has been reported.
+    _annotate_as_boolean(expression)
     left = expression.function.args[0]
     right = expression.function.args[1]
     for argument, name in ((left, "Left"), (right, "Right")):
